@@ -21,7 +21,8 @@ def dispatch (line : String) : String :=
     let fs := fields line
     let id := getD fs "id" "?"
     let body := if kind == "scale" then Swim.Drv.Scale.handle fs
-      else if kind == "lockstir" then Swim.Drv.Scale.handleLockStir fs else match prop with
+      else if kind == "lockstir" then Swim.Drv.Scale.handleLockStir fs
+      else if kind == "stir" then Swim.Drv.Merge.handle prop kind fs else match prop with
       | "C17" => Swim.Drv.C17.handle kind fs
       | "C03" => if kind == "hist" then Swim.Drv.Merge.handle "C06" kind fs else Swim.Drv.C03.handle kind fs
       | "C04" => if kind == "cluster" then Swim.Drv.Cluster.handleCluster fs else Swim.Drv.Sim.handleC04 kind fs
